@@ -118,6 +118,42 @@ def addrWrite (sync : Bool) (bus : Bus) : Out :=
 def restart (bus : Bus) : Out :=
   { res := .ok, tels := [.conn target, .data target 0 .restart, .disc target], acks := [], bus := restartAt bus target }
 
+/-! ### Histories: several procedures, one after the other, on the same XKNX object and bus -/
+
+inductive Op where
+  | check (x : Nat)          -- nm_individual_address_check(x)
+  | restartDev (x : Nat)     -- dm_restart(x)
+  | read (raiseIfMultiple : Bool)
+  | write                    -- nm_individual_address_write(target)
+  deriving DecidableEq, Repr
+
+/-- `dm_restart(xknx, x)`: nothing is awaited, so normally the outcome does not depend on the population. Only when a
+refusing device's T_Disconnect is processed while the T_Connect send is still awaited (`sync`) does `send_data` find the
+connection closed: ManagementConnectionRefused, nothing but T_Connect was sent, nothing is restarted. -/
+def restartProc (sync : Bool) (bus : Bus) (x : Nat) : Out :=
+  if sync ∧ 0 < countAt bus x .refuses then
+    { res := .refused, tels := [.conn x], acks := [], bus := bus }
+  else
+    { res := .ok, tels := [.conn x, .data x 0 .restart, .disc x], acks := [], bus := restartAt bus x }
+
+/-- One procedure. Nothing but the bus is carried from one procedure to the next: every procedure leaves
+`Management` without connection objects and broadcast contexts. -/
+def runOp (sync : Bool) (bus : Bus) : Op → Out
+  | .check x => { res := .okBool (checkAddress sync bus x).1, tels := (checkAddress sync bus x).2.1,
+                  acks := (checkAddress sync bus x).2.2, bus := bus }
+  | .restartDev x => restartProc sync bus x
+  | .read r => { res := readProg bus r, tels := [.bRead], acks := [], bus := bus }
+  | .write => addrWrite sync bus
+
+def runHist (sync : Bool) : Bus → List Op → List Out
+  | _, [] => []
+  | bus, o :: os => runOp sync bus o :: runHist sync (runOp sync bus o).bus os
+
+/-- The bus after a history. -/
+def histBus (sync : Bool) : Bus → List Op → Bus
+  | bus, [] => bus
+  | bus, o :: os => histBus sync (runOp sync bus o).bus os
+
 /-! ### Serial-number procedures -/
 
 structure SDev where
@@ -253,6 +289,8 @@ def handle : List String → String
     match parsePop parseDev pop with
     | some bus => showOut (restart bus)
     | none => "bad-op"
+  | ["seq", ops, pop] => seqShow false ops pop
+  | ["seqs", ops, pop] => seqShow true ops pop
   | ["sread", s, pop] =>
     match parsePop parseSDev pop, s.toNat? with
     | some bus, some s => renderOut (.okAddr (serialRead bus s)) [.bSRead s] [] (bus.map SDev.render)
@@ -273,6 +311,18 @@ def handle : List String → String
     | _, _, _ => "bad-op"
   | _ => "bad-op"
 where
+  parseOp (tok : String) : Option Op :=
+    match tok.splitOn ":" with
+    | ["check", a] => (parseAddr a).map .check
+    | ["restart", a] => (parseAddr a).map .restartDev
+    | ["read0", _] => some (.read false)
+    | ["read1", _] => some (.read true)
+    | ["write", "t"] => some .write
+    | _ => none
+  seqShow (sync : Bool) (ops pop : String) : String :=
+    match (ops.splitOn ",").mapM parseOp, parsePop parseDev pop with
+    | some os, some bus => " // ".intercalate ((runHist sync bus os).map showOut)
+    | _, _ => "bad-op"
   authShow (l1 l2 l3 : Nat) : String :=
     let (lvl, n) := authorize2 l1 l2 l3
     let reqs : List Tel := [.data 0 0 .authFree, .data 0 1 .authKey, .data 0 2 .authFree]
